@@ -1470,7 +1470,7 @@ def gen_pth_prog(rng):
     NT = nch + 1
     th = {t: [] for t in range(1, NT + 1)}
     barn = [0, 0, 0, 0]; keydt = [rng.choice((0, 1)) for _ in range(4)]; mkind = [rng.choice((0, 1)) for _ in range(4)]
-    kind = rng.choice(('counter', 'counter', 'handoff', 'barrier', 'keys', 'once', 'detach', 'static'))
+    kind = rng.choice(('counter', 'counter', 'handoff', 'barrier', 'keys', 'once', 'detach', 'static')) if rng.random() > 0.04 else 'racy'
     ends = lambda t: rng.choice(([], [('RET', 2000 + t, 0, 0)], [('EXIT', 3000 + t, 0, 0)]))
 
     def locked_add(m, v, d, style):
@@ -1478,8 +1478,14 @@ def gen_pth_prog(rng):
             return [('SPIN', 4 + m, 0, 0), ('ADD', v, d, 0), ('SPUN', 4 + m, 0, 0)]
         return [(style, m, 0, 0), ('ADD', v, d, 0), ('UNLOCK', m, 0, 0)]
     main = th[1]
-    attr = lambda: rng.choice((0, 0, 1, 3))
-    if kind in ('counter', 'static', 'once'):
+    attr = lambda: rng.choice((0, 0, 1, 3, 4))
+    if kind == 'racy':
+        # NOT determinate on purpose (a read that races with the additions): TLC must find several results and the
+        # program must be left out of the comparison
+        for t in range(2, NT + 1):
+            main.append(('CREATE', t, 0, 0)); th[t] = locked_add(0, 0, t, 'LOCK')
+        main += [('LOCK', 0, 0, 0), ('READ', 0, 0, 0), ('UNLOCK', 0, 0, 0)] + [('JOIN', t, 0, 0) for t in range(2, NT + 1)]
+    elif kind in ('counter', 'static', 'once'):
         m = rng.randrange(2); v = rng.randrange(2)
         if kind == 'static':
             mkind[m] = 1
@@ -1490,7 +1496,7 @@ def gen_pth_prog(rng):
             for _ in range(rng.randint(1, 2)):
                 b += locked_add(m, v, rng.randint(1, 5), 'LOCK' if kind == 'static' else rng.choice(('LOCK', 'LOCK', 'TLOCK', 'SPIN')))
                 if rng.random() < 0.3:
-                    b.append((rng.choice(('YIELD', 'SELF')), 0, 0, 0))
+                    b.append(rng.choice((('YIELD', 0, 0, 0), ('SELF', 0, 0, 0), ('SLEEP', rng.choice((0, 1, 200, 1500)), 0, 0))))
             th[t] = b + ends(t)
             main.append(('CREATE', t, attr(), 0))
         if kind == 'once':
@@ -1585,7 +1591,7 @@ def norm_result(r):
 
 def check_C16(ctx):
     wd = ctx.work
-    n = 60 if ctx.quick else 600
+    n = 300 if ctx.quick else 3000
     rng = random.Random(ctx.seed * 104729 + 7)
     progs = [gen_pth_prog(rng) for _ in range(n)]
     # --- (1) TLC: every interleaving of every program; determinacy and the expected result
@@ -1616,6 +1622,10 @@ def check_C16(ctx):
             % (n, r['distinct'], len(expected), sum(1 for i in range(1, n + 1) if len(set(results.get(i, []))) > 1), len(stuck)))
     if len(expected) < n * 0.8:
         raise Infra('program generator produces too many programs that are not determinate')
+    racy = [i for i in range(1, n + 1) if progs[i - 1]['kind'] == 'racy']
+    if any(i in expected for i in racy):
+        raise Infra('calibration: a deliberately racy program was certified determinate')
+    ctx.cov['racy_programs_rejected_by_TLC'] = len(racy)
     ctx.cov['programs'] = len(expected)
     kinds = {}
     for i in expected:
